@@ -134,21 +134,20 @@ Fixpoint observe_u (S : sch) (rho : ctx) {struct S} : ubody -> otree :=
    or with another number of labels, is reported by Expand even when it generates nothing,
    while the written-out body then has nothing to report); the schema's block types are
    distinct and do not include "dynamic" itself; bodies read with JustAttributes contain no
-   dynamic block and are not inside the content of one ([inside]). *)
+   dynamic block (it would be reported as a block even when it generates nothing). *)
 Fixpoint nodupb (l : list (list Z)) : bool :=
   match l with [] => true | x :: r => negb (str_mem x r) && nodupb r end.
 Definition types_ok (blocks : list (list Z * Z * sch)) : bool :=
   let ts := map (fun p : list Z * Z * sch => fst (fst p)) blocks in
   nodupb ts && negb (str_mem s_dynamic ts).
 
-Fixpoint conforms (S : sch) {struct S} : bool -> dbody -> bool :=
+Fixpoint conforms (S : sch) {struct S} : dbody -> bool :=
   match S with
-  | SJust => fun inside b =>
-      negb inside &&
+  | SJust => fun b =>
       forallb (fun d => match d with DDynamic _ _ _ _ _ | DDynBad _ => false | _ => true end) b
   | Sch attrs blocks =>
       let subs := map (fun p : list Z * Z * sch => (fst (fst p), (snd (fst p), conforms (snd p)))) blocks in
-      fun inside b =>
+      fun b =>
       types_ok blocks &&
       forallb (fun d =>
         match d with
@@ -156,12 +155,12 @@ Fixpoint conforms (S : sch) {struct S} : bool -> dbody -> bool :=
         | DBlock t ls body =>
             negb (str_eqb t s_dynamic) &&
             match afind t subs with
-            | Some (n, f) => if lenZ ls =? n then f inside body else true
+            | Some (n, f) => if lenZ ls =? n then f body else true
             | None => true
             end
         | DDynamic t _ _ les content =>
             match afind t subs with
-            | Some (n, f) => (lenZ les =? n) && f true content
+            | Some (n, f) => (lenZ les =? n) && f content
             | None => false
             end
         | DDynBad _ => false
